@@ -275,13 +275,18 @@ CHECKS = {
                     "1000; lemma: successor is +1 modulo 54945 on the 999 x 55 grid, hence one cycle visiting every position once.",
     ),
     "C19": dict(
-        verus=[dict(unit="elevation_from_chunk")],
-        trusted_base=STD_TRUST,
-        not_decided=["next-chunk time estimate (chrono arithmetic over DateTime/Duration and the HashMap/VecDeque rolling window): "
-                     "not yet under contract in this revision"],
-        explanation="get_elevation_from_chunk and the half-degree accessor extracted verbatim: result == cut_of(sequence, cuts) for all "
-                    "cut lists and sequences >= 1 (chunk 1 -> none; six chunks per half-degree cut, three otherwise; none beyond the "
-                    "last cut); lemma: the mapping is monotone in the sequence.",
+        verus=[dict(unit="elevation_from_chunk"), dict(unit="estimate")],
+        trusted_base=STD_TRUST + [
+            "chrono: DateTime/Duration carry a millisecond view; `add`/`+=` add, Duration::seconds(n) is 1000 n ms (assumed; stand-in types)",
+            "ChunkTimingStats::get_average_{timing,attempts} are uninterpreted means of the recorded window (HashMap<_, VecDeque<_>> and iterator sums are outside Verus; the rolling window of ten is NOT decided)",
+            "`x as i64` on f64 through a shim (Verus leaves executable float casts uninterpreted)",
+        ],
+        not_decided=["rolling window: that the mean is taken over the last ten recorded samples of the same characteristics "
+                     "(add_timing's push_back/pop_front on a HashMap entry) is assumed, not proved"],
+        explanation="get_elevation_from_chunk: result == cut_of(sequence, cuts) for all cut lists and sequences >= 1, monotone (lemma). "
+                    "estimate_next_chunk_time and get_default_wait_time extracted verbatim: none iff the sequence is outside 1..=55 or "
+                    "the next chunk has no cut; +10 s after an end chunk; previous upload time plus history mean plus (mean attempts - 1) s "
+                    "when both exist, else 11/7/4 s by waveform/phase; lemma: never earlier than the previous upload time.",
     ),
 }
 
